@@ -297,6 +297,8 @@ impl Check for C13 {
             let mut claimed: Vec<Option<PeerId>> = keys.iter().map(|k| Some(PeerId::from(k.public()))).collect();
             let mut signer: Vec<PeerId> = keys.iter().map(|k| PeerId::from(k.public())).collect();
             let mut tampered = vec![false; n];
+            // the authentically signed quote each entry started from (two mutations of one field can cancel out)
+            let mut orig: Vec<PaymentQuote> = entries.iter().map(|(_, q)| q.clone()).collect();
             let nfaults = *[0usize, 0, 1, 1, 1, 2].choose(&mut cx.rng).expect("nonempty");
             let mut kinds = vec![];
             for _ in 0..nfaults {
@@ -305,6 +307,7 @@ impl Check for C13 {
                     0 => {
                         // quote signed by a different node than the claimed payee
                         entries[i].1 = random_quote(&mut cx.rng, &other);
+                        orig[i] = entries[i].1.clone();
                         signer[i] = PeerId::from(other.public());
                         tampered[i] = false;
                         kinds.push(format!("foreign-signer@{i}"));
@@ -335,10 +338,17 @@ impl Check for C13 {
                 // duplicate an entry
                 let i = cx.rng.gen_range(0..n);
                 entries.push(entries[i].clone());
+                orig.push(orig[i].clone());
                 claimed.push(claimed[i]);
                 signer.push(signer[i]);
                 tampered.push(tampered[i]);
                 kinds.push(format!("dup@{i}"));
+            }
+            for i in 0..entries.len() {
+                if tampered[i] && entries[i].1 == orig[i] {
+                    tampered[i] = false;
+                    cx.count("proof:mutations-cancelled-out");
+                }
             }
             let authentic: Vec<bool> = (0..entries.len()).map(|i| !tampered[i] && claimed[i] == Some(signer[i])).collect();
             let proof = ProofOfPayment { peer_quotes: entries.clone() };
